@@ -92,7 +92,7 @@ def check(facts, rep, tier, cfg):
                     rep.bad("C02.R2", "start_send/%s" % b.path, where, "a message reaches the WebSocket sink without going through the single ordered outbound queue (frames of one stream can be reordered / interleaved)")
     rep.floor("C02.R2", "start_send sites", n, 2)
     qs = list(queue_sends(facts, crate))
-    rep.floor("C02.R2", "queue-send sites", len(qs), 17)
+    rep.floor("C02.R2", "queue-send sites", len(qs), 14 + 2 * ("std" in crate.features) + ("tokio-time" in crate.features))
     # the receiver half is created once
     chans = [(b, bi) for b in crate.bodies for bi, t in b.calls() if callee(t) and callee(t)["name"] == "unbounded_channel" and "ws::Message" in callee(t)["path"]]
     if len(chans) == 1:
@@ -181,3 +181,13 @@ def check(facts, rep, tier, cfg):
                     if shared and not subs and any(const_eval(x) == 0 for x in walk(r) if x.kind == "const"):
                         ok = True
             (rep.ok if ok else rep.bad)("C02.R4", "poll_write_vectored-count", where, "returns the sum of len() over exactly the slices pushed" if ok else "poll_write_vectored's returned count is not the Add-accumulation of the lengths of the slices pushed into the frame")
+    # ---- R5 window vs queue capacity (a window larger than the inbound queue makes the receiver drop frames)
+    rep.rule("C02.R5", "the window advertised to the peer equals the inbound queue capacity; the send credit is the peer's window (= C03.R3/R4)")
+    from an import Inter as _Inter
+    sub = type(rep)(rep.prop, rep.tier, rep.config)
+    rules_c03.check_r3_r4(facts, sub, crate, _Inter(facts))
+    for i in sub.instances:
+        rep.ok("C02.R5", i["key"], i["where"], i["detail"], nontrivial=False)
+    for v in sub.violations:
+        rep.bad("C02.R5", v["key"].split("/", 1)[1], v["where"], v["msg"])
+
